@@ -33,7 +33,7 @@ var table = map[string]map[string]string{
 	"time": {"Now": "vtime", "Since": "vtime", "Until": "vtime", "Sleep": "vtime", "After": "vtime", "AfterFunc": "vtime",
 		"NewTimer": "vtime", "NewTicker": "vtime", "Timer": "vtime", "Ticker": "vtime", "Tick": "vtime"},
 	"math/rand": {"Int": "vrand", "Intn": "vrand", "Float64": "vrand"},
-	"net":       {"Dial": "vnet", "DialTimeout": "vnet"},
+	"net":       {"Dial": "vnet", "DialTimeout": "vnet", "ListenUDP": "vnet", "Listen": "vnet"},
 	"io":        {"Pipe": "vio", "PipeReader": "vio", "PipeWriter": "vio"},
 	"runtime":   {"GOMAXPROCS": "vsched"},
 }
